@@ -1,7 +1,7 @@
 (* C14 — property theorems only: statement, `exact <lemma>`, Print Assumptions. *)
 From GL Require Import Common.Bytes Pm.Class Pm.PmTypes Pm.RefMatch Pm.GoParse Pm.GoCompile Pm.GoVM
      Pm.Find Pm.Gsub Pm.Flat Pm.ClassFacts Pm.FindFacts Pm.GsubFacts Pm.ParseFacts Pm.CompileFacts
-     Pm.VMFacts Pm.RefFacts Pm.SetFacts Pm.PmRefine Pm.PrintFacts.
+     Pm.VMFacts Pm.RefFacts Pm.SetFacts Pm.PmRefine Pm.PrintFacts Pm.FindRefine Pm.ReplFacts.
 
 (* single character classes (%a %c %d %l %p %s %u %w %x %z, their complements, and every other
    escaped byte) agree with C's <ctype.h> in the "C" locale as used by lstrlib's match_class,
@@ -206,3 +206,47 @@ Proof.
   exact (PrintFacts.vm_refines_ref_checked p pb src sp0 _ H1 H2 H3 H4 H5 (goVM_terminates p src sp0 H4 H5)).
 Qed.
 Print Assumptions vm_refines_ref_total.
+
+(* END TO END for string.find and string.match: for a printable pattern tree p with text pb that
+   the parser maps back to p (both hypotheses are computable; goparse_roundtrip_small discharges
+   the second on its family), every byte subject and every init, the transcription of
+   stringlib.go's strFind / strMatch returns exactly the values of lstrlib's str_find_aux:
+   positions, captures, position captures, nil.  (The reference raising an error is excluded:
+   that is the malformed-pattern clause of the property, covered by the correspondence runs.) *)
+Theorem find_refines_ref :
+  forall (p : seqpat) (pb s : bytes) (init : Z),
+    seq_okb p = true -> print_seq p = Some pb -> goParse pb = ParseOk p ->
+    is_bytes s = true -> 1 + Z.of_nat (vm_fuel s (goCompile p)) <= maxRecursionLevel ->
+    0 < len pb ->
+    ref_find s pb init <> Err ->
+    strFind s pb (Some init) = ref_find s pb init.
+Proof. exact find_refines_ref_lemma. Qed.
+Print Assumptions find_refines_ref.
+
+Theorem match_refines_ref :
+  forall (p : seqpat) (pb s : bytes) (init : Z),
+    seq_okb p = true -> print_seq p = Some pb -> goParse pb = ParseOk p ->
+    is_bytes s = true -> 1 + Z.of_nat (vm_fuel s (goCompile p)) <= maxRecursionLevel ->
+    ref_smatch s pb init <> Err ->
+    strMatch s pb (Some init) = ref_smatch s pb init.
+Proof. exact match_refines_ref_lemma. Qed.
+Print Assumptions match_refines_ref.
+
+(* repl_scanner_spec: on a replacement string made of literal bytes, %0-%9 and %%, strGsubStr's
+   scanner (flagScanner with flag '%' + capturedString) appends to its buffer exactly what
+   lstrlib's add_s produces for the same match (whole match for %0, and for %1 without captures;
+   position captures as decimal numbers; "invalid capture index" for the same references) *)
+Theorem repl_scanner_spec :
+  forall (src : bytes) (st e : Z) (m : list Z) (cs : caps),
+    agree st m cs -> mget m 1 = 2 * e -> len m = 2 + 2 * len cs ->
+    (forall j c, zth cs j = Some c -> snd c <> CAP_UNF) ->
+    forall toks pre buf n1 n2,
+      Forall rtok_ok toks ->
+      len (rtoks_text toks) < Z.of_nat n1 -> len (rtoks_text toks) < Z.of_nat n2 ->
+      repl_scan n1 src m (pre ++ rtoks_text toks) (len pre) false buf =
+      match add_s n2 src (pre ++ rtoks_text toks) cs (len pre) st e with
+      | Ok x => Ok (buf ++ x)
+      | Err => Err | Panic => Panic | Fuel => Fuel | Unsup => Unsup
+      end.
+Proof. exact repl_scanner_spec_lemma. Qed.
+Print Assumptions repl_scanner_spec.
